@@ -63,7 +63,17 @@ func (p *Project) WorkflowsDir() string {
 // project's directory, the project knows the file.
 func (p *Project) Knows(path string) bool {
 	// TODO: strings.HasPrefix is not perfect to check file path
-	return strings.HasPrefix(absPath(path), p.root)
+	a := absPath(path)
+	if a == p.root {
+		return true
+	}
+	// Compare with a trailing separator. A sibling directory whose name starts with the name of
+	// the root directory (e.g. "repo-b" for "repo") is not inside the project.
+	root := p.root
+	if !strings.HasSuffix(root, string(filepath.Separator)) {
+		root += string(filepath.Separator)
+	}
+	return strings.HasPrefix(a, root)
 }
 
 // Config returns config object of the GitHub project repository. The config file was read from
